@@ -260,8 +260,10 @@ namespace
                 if ((prop == "C01" || prop == "C02") && f.empty() && c.prog.str().rfind("single+mst:b:", 0) == 0)
                 {
                     using impl_t = typename Built<G>::impl_t;
-                    for (std::size_t thr : { std::size_t(1), std::size_t(2), std::size_t(3) })
+                    for (std::size_t thr : { std::size_t(1), std::size_t(3), std::size_t(2) })
                     {
+                        if (thr == 2 && !ctx.thorough())
+                            break;  // quick: thresholds 1 and 3
                         {
                             Built<G> pb = build_graph(grid, Program::parse("single"), c.p);
                             configure(*pb.fg, c);
